@@ -188,9 +188,17 @@ func init() {
 				cse.Race = i%2 == 0
 				cs = append(cs, cse)
 			}
+			// one run's id counter across tens of thousands of short-lived pools (stage after stage), each stopped with work pending
+			for i := 0; i < map[string]int{"quick": 3, "thorough": 16}[tier]; i++ {
+				cse := core.MkCase("C03", "poolstops", i, seed, map[string]int{"pools": 20000, "w": pick(r, 4, 8, 16)})
+				cse.Race = i%3 == 2
+				cse.Procs = 16
+				cse.TimeoutMS = 120000
+				cs = append(cs, cse)
+			}
 			return cs
 		},
-		Kinds:  map[string]core.RunFunc{"run": c03Run, "porcupine": c03Porcupine, "cli": c03CLI},
+		Kinds:  map[string]core.RunFunc{"run": c03Run, "porcupine": c03Porcupine, "cli": c03CLI, "poolstops": c03PoolStops},
 		Floors: map[string]int64{"limit_reached_runs": 20, "competed_runs": 10, "ids_checked": 1000},
 	})
 }
@@ -436,4 +444,73 @@ func c03Porcupine(c *core.Case, o *core.Outcome) {
 		o.Sig("porc:clients=%d:limit=%v", clients, limit > 0)
 	}
 	o.Sample = map[string]any{"histories": histories}
+}
+
+// c03PoolStops: one pool manager (one run's id counter, no limit) serves tens of thousands of trigger pools one after the
+// other, as the stages of a config file do; each gets a tick of more work than it has workers and is stopped a few
+// microseconds later, while its workers are drawing ids. Whatever the pools did with their requests, the ids that reached
+// iteration functions are exactly 1..k, each once.
+func c03PoolStops(c *core.Case, o *core.Outcome) {
+	var pp map[string]int
+	c.Params(&pp)
+	pools, w := pp["pools"], pp["w"]
+	if c.Race {
+		pools /= 5
+	}
+	var mu sync.Mutex
+	seen := map[uint64]int{}
+	env := engine.NewPoolEnv("poolstops", func(*f1testing.T) f1testing.RunFn {
+		return func(t *f1testing.T) {
+			id := engine.IDOf(t)
+			mu.Lock()
+			seen[id]++
+			mu.Unlock()
+		}
+	}, 0, nil)
+	r := c.Rng("poolstops")
+	for i := 0; i < pools; i++ {
+		ctx, cancel := context.WithCancel(context.Background())
+		pool := env.Manager.NewTriggerPool(w)
+		wctx := pool.Start(ctx)
+		pool.Trigger(wctx, w+r.IntN(3*w))
+		spin(time.Duration(r.IntN(30)) * time.Microsecond)
+		cancel()
+		select {
+		case <-env.Manager.WaitForCompletion():
+		case <-time.After(20 * time.Second):
+			o.Violate("poolstops-hang", "pool %d of %d (%d workers) did not complete within 20 s of its stop", i, pools, w)
+			return
+		}
+	}
+	mu.Lock()
+	defer mu.Unlock()
+	o.Events = int64(len(seen))
+	var dup, missing []uint64
+	maxID := uint64(0)
+	for id, k := range seen {
+		if k > 1 {
+			dup = append(dup, id)
+		}
+		if id > maxID {
+			maxID = id
+		}
+	}
+	for id := uint64(1); id <= maxID && len(missing) < 5; id++ {
+		if seen[id] == 0 {
+			missing = append(missing, id)
+		}
+	}
+	if len(dup) > 0 || len(missing) > 0 {
+		if len(dup) > 5 {
+			dup = dup[:5]
+		}
+		o.Violate("poolstops-ids", "%d pools of %d workers on one id counter, each stopped while its workers were taking work: %d iteration functions ran, highest id %d; ids handed out twice: %v, ids never handed out: %v", pools, w, len(seen), maxID, dup, missing)
+		return
+	}
+	if len(seen) < pools {
+		o.Inconc("only %d iterations ran in %d pools", len(seen), pools)
+		return
+	}
+	o.Sig("poolstops:w=%d:race=%v", w, c.Race)
+	o.Sample = map[string]any{"pools": pools, "workers": w, "iterations": len(seen)}
 }
